@@ -95,6 +95,8 @@ def regions(cfg, r):
         out.append("finalised-inside-multistep-forward")
     if r.get("copy_from_disk_restart", 0) > 0:
         out.append("disk-restart-checkpoint-loaded-by-copy")
+    if cfg.get("late"):
+        out.append("finalised-late")
     return out
 
 
@@ -177,7 +179,7 @@ def _compact(r):
 
 def sweep(tier, seed, weights=None):
     count, shards = SIZES[tier]
-    boxcfgs = list(C.box(tier)) + list(C.deep_repeat_probes(tier))
+    boxcfgs = list(C.box(tier)) + list(C.late_finalisation_box(tier)) + list(C.deep_repeat_probes(tier))
     box_results = R.pmap(_exec, boxcfgs)
     gen = R.pmap(_shard, [(tier, seed, s, count, weights) for s in range(shards)], chunksize=1)
     gen_results = [r for part in gen for r in part]
